@@ -105,6 +105,47 @@ SHAPES = [
 ]
 
 
+def grid_shapes():
+    """Systematic coverage of option field variants: every (packaging x type x alias form) combination of
+    an option - 27 value options + 3 flags - occurs once, four per struct, deterministically shuffled;
+    every second struct also carries a positional / a subcommand so that the variants meet the other
+    mechanisms of the matcher."""
+    import random as _random
+    combos = []
+    for ty, rusts in (("int", ["i32"]), ("str", [STR, "String"]), ("unixstr", [USTR])):
+        for pkg in ("required", "optional", "repeated"):
+            for form in ("long", "short", "both"):
+                combos.append((pkg, ty, rusts[len(combos) % len(rusts)], form))
+    for form in ("long", "short", "both"):
+        combos.append(("optional", "bool", "bool", form))
+    _random.Random(7).shuffle(combos)
+    letters = "abcdefgijklmnopqrstuvwxyz"      # no 'h': -h is the help request
+    out = []
+    for k in range(0, len(combos), 4):
+        fields = []
+        for j, (pkg, ty, rust, form) in enumerate(combos[k:k + 4]):
+            idx = k + j
+            fields.append(opt("g%d" % idx, pkg, ty, rust,
+                              long=("opt%d" % idx) if form != "short" else None,
+                              short=letters[idx % len(letters)] if form != "long" else None))
+        n = k // 4 + 1
+        name = "Grid%d" % n
+        sc = None
+        if n % 4 == 2:
+            fields.insert(1, pos("target", "required", "str", "String"))
+        elif n % 4 == 0:
+            fields.append(pos("count", "optional", "int", "i32"))
+        elif n % 4 == 3:
+            sc = sub("cmd", name + "Cmd", n % 8 == 3, [
+                ("Ping", None),
+                ("Load", st(name + "Load", [opt("dry", "optional", "bool", "bool", long="dry", short="n")]))])
+        out.append(st(name, fields, sc))
+    return out
+
+
+GRID_FROM = len(SHAPES) + 1      # 1-based index of the first grid shape
+SHAPES = SHAPES + grid_shapes()
+
 # ---------------------------------------------------------------------------------------------
 # helpers shared by the emitters and by the check
 # ---------------------------------------------------------------------------------------------
@@ -210,6 +251,7 @@ def emit_tla():
         o.append("Alpha%d == <<%s>>\n" % (k + 1, ", ".join(tla_bytes(t) for t in alphabet(s))))
     o.append("Shapes == <<%s>>" % ", ".join("Shape%d" % (k + 1) for k in range(len(SHAPES))))
     o.append("Alpha == <<%s>>" % ", ".join("Alpha%d" % (k + 1) for k in range(len(SHAPES))))
+    o.append("GridFrom == %d      \\* shapes from this index on are the systematic grid family" % GRID_FROM)
     o.append("=============================================================================")
     return "\n".join(o) + "\n"
 
